@@ -104,11 +104,13 @@ impl ProxySettings {
         }
 
         if let Some(host) = url.host_str() {
-            if !self
-                .no_proxy_hosts
-                .iter()
-                .any(|x| host.ends_with(x.to_lowercase().as_str()))
-            {
+            // A host bypasses the proxy if it equals a no-proxy entry or is a subdomain of one.
+            // Empty entries (`NO_PROXY=""`, stray commas) match nothing.
+            let host = host.to_lowercase();
+            if !self.no_proxy_hosts.iter().map(|x| x.to_lowercase()).any(|x| {
+                !x.is_empty()
+                    && (host == x || (host.ends_with(x.as_str()) && host[..host.len() - x.len()].ends_with('.')))
+            }) {
                 return match url.scheme() {
                     "http" => self.http_proxy.as_ref(),
                     "https" => self.https_proxy.as_ref(),
